@@ -17,7 +17,7 @@ ID = 'C16'
 LEVEL = 'exploration'
 REPLAY_DEADLINE = 120
 
-FLAGSETS = ['GE', 'GDE', 'E', 'GEO', 'GEF', 'LE', 'GEQ', 'GEY', 'GEN', 'LEF']
+FLAGSETS = ['GE', 'GDE', 'E', 'GEO', 'GEF', 'LE', 'GEQ', 'GEY', 'GEN', 'LEF', 'EY']
 
 
 def pl_flags(fs):
@@ -117,9 +117,9 @@ def check_state(desc, sc, pats, res, thin):
                             res.add_violation(ID, v)
                             break
                 # ---- globmatch / full_match == glob.globmatch on the path's string
-                for q in entries[:4]:
+                for q in entries[:4] + ['.']:
                     qp = WP.Path(q)
-                    s = str(qp) + ('/' if model.isdir(q) else '')
+                    s = str(qp) + ('/' if q == '.' or model.isdir(q) else '')
                     want = G.globmatch(s, text, flags=fl | G.FORCEUNIX)
                     g1 = qp.globmatch(text, flags=fl)
                     g2 = qp.full_match(text, flags=fl)
